@@ -6,7 +6,7 @@
     relation has no cycle; equivalence is symmetric and recorded once; a parent link is backed by a listing; lists are
     well-typed.  [WF] (HeapProofs.v) is the observer's well-formedness of DESIGN.md (Appendix B), relative to liveness. *)
 From Coq Require Import List String Bool Arith Relations.
-From LC Require Import HeapDefs HeapBase HeapInv HeapOps HeapProofs HeapTotal HeapBad HeapFrame HeapWitness HeapLive.
+From LC Require Import HeapDefs HeapBase HeapInv HeapOps HeapProofs HeapTotal HeapBad HeapFrame HeapWitness HeapLive HeapFrameAll.
 Import ListNotations.
 
 (** step_wf — every one of the 40 op constructors preserves the invariant, for every state, every structural-equality
@@ -156,6 +156,88 @@ Proof.
   exact (HeapLive.has_equivalent_alive seq s' v w (HeapLive.run_clean seq ops (init u) s' (HeapLive.clean_init u) H) Q).
 Qed.
 Print Assumptions C09_has_equivalent_alive.
+
+(** affects_only_target for EVERY op constructor (40 mutators + Query): [touched o s] is the target, the container the op
+    works in (for the searching overloads: the level where the search succeeds), the replacement and the previous parent of a
+    moved / inserted entity; release and all 22 queries touch no record.  Any other object keeps its record — provided the
+    call neither destroys it nor destroys something it refers to weakly (its parent, its equivalent variables): dropping
+    references to the destroyed is the only thing destruction does to a survivor (C09_gc_frame). *)
+Theorem C09_step_frame : forall seq o s s' r, Inv s -> step true seq s o = Ok s' r ->
+  forall x, ~ touched seq o s x ->
+    alive s' x = true ->
+    (forall p, parent_of s x = Some p -> alive s' p = true) ->
+    (forall b, In b (eqs_of s x) -> alive s' b = true) ->
+    get s' x = get s x.
+Proof. exact HeapFrameAll.step_frame. Qed.
+Print Assumptions C09_step_frame.
+
+Theorem C09_query_release_touch_nothing : forall seq s x,
+  (forall q, ~ touched seq (Query q) s x) /\ (forall h, ~ touched seq (Release h) s x).
+Proof. exact HeapFrameAll.query_release_touch_nothing. Qed.
+Print Assumptions C09_query_release_touch_nothing.
+
+(** non-vacuity of [touched]: removing child 0 of the model touches exactly the model and that child *)
+Example C09_touched_example :
+  exists s, run true seq_conc (init U1) [AddComponent 0 (Some 1); AddComponent 0 (Some 2)] = Some s /\
+            forall x, touched seq_conc (RemoveComponentIdx 0 0) s x <-> x = 0 \/ x = 1.
+Proof.
+  eexists. split; [vm_compute; reflexivity|]. intros x. cbn [touched]. unfold T_detach.
+  change (x = 0 \/ Some 1 = Some x <-> x = 0 \/ x = 1). split; intros [H|H]; auto; right; congruence.
+Qed.
+Print Assumptions C09_touched_example.
+
+(** "an object that is not a child is either refused or matched to a structurally equal child, whose own links are then
+    updated": the matched child is the FIRST structurally equal one; it loses its parent and its listing; the object handed
+    in keeps its record.  remove (building block and the four step-level forms) and replace by pointer.  There is no take by
+    pointer in the API; for add / move the entity leaves its previous parent ITSELF (C09_attach_old_parent: under Inv it is a
+    child there, so no look-alike can be matched). *)
+Theorem C09_remove_nonchild_first : forall seq s K k x s', Inv s -> ~ In x (children s K k) ->
+  remove_ptr_local true seq s K k x = Some s' ->
+  exists i y, nth_error (children s K k) i = Some y /\ seq s y x = true /\
+    (forall j z, j < i -> nth_error (children s K k) j = Some z -> seq s z x = false) /\
+    s' = detached s K k i y /\ parent_of s' y = None /\ ~ In y (children s' K k) /\
+    (x <> k -> getd s' x = getd s x).
+Proof. exact HeapFrameAll.remove_nonchild_first. Qed.
+Print Assumptions C09_remove_nonchild_first.
+
+Theorem C09_step_remove_nonchild_first : forall seq s k x i y,
+  (recv s k CVars = true -> arg_ok s x KVar = true -> ~ In x (children s CVars k) ->
+     find_child true seq s CVars k x = Some i -> nth_error (children s CVars k) i = Some y ->
+     step true seq s (RemoveVariablePtr k (Some x)) = Ok (gc (detached s CVars k i y)) (RBool true)) /\
+  (recv s k CResets = true -> arg_ok s x KReset = true -> ~ In x (children s CResets k) ->
+     find_child true seq s CResets k x = Some i -> nth_error (children s CResets k) i = Some y ->
+     step true seq s (RemoveResetPtr k (Some x)) = Ok (gc (detached s CResets k i y)) (RBool true)) /\
+  (recv s k CUnits = true -> arg_ok s x KUnits = true -> ~ In x (children s CUnits k) ->
+     find_child true seq s CUnits k x = Some i -> nth_error (children s CUnits k) i = Some y ->
+     step true seq s (RemoveUnitsPtr k (Some x)) = Ok (gc (detached s CUnits k i y)) (RBool true)) /\
+  (recv s k CComps = true -> arg_ok s x KComp = true -> ~ In x (children s CComps k) ->
+     find_child true seq s CComps k x = Some i -> nth_error (children s CComps k) i = Some y ->
+     step true seq s (RemoveComponentPtr k (Some x) false) = Ok (gc (detached s CComps k i y)) (RBool true)).
+Proof. exact HeapFrameAll.step_remove_nonchild_first. Qed.
+Print Assumptions C09_step_remove_nonchild_first.
+
+Theorem C09_find_child_nonchild_first : forall seq s K k x i, ~ In x (children s K k) ->
+  find_child true seq s K k x = Some i ->
+  exists y, nth_error (children s K k) i = Some y /\ seq s y x = true /\
+            forall j z, j < i -> nth_error (children s K k) j = Some z -> seq s z x = false.
+Proof. exact HeapFrameAll.find_child_nonchild_first. Qed.
+Print Assumptions C09_find_child_nonchild_first.
+
+Theorem C09_replace_nonchild_first : forall seq s K k old c s' b, Inv s -> inr s c -> kindd s c = child_kind K ->
+  ~ In old (children s K k) ->
+  replace_at true seq s K k (find_child true seq s K k old) (Some c) = LDone (s', b) ->
+  exists i y, nth_error (children s K k) i = Some y /\ seq s y old = true /\
+    (forall j z, j < i -> nth_error (children s K k) j = Some z -> seq s z old = false) /\
+    (y <> c -> b = true -> parent_of s' y = None) /\
+    (forall x, x <> k -> x <> y -> x <> c -> parent_of s c <> Some x -> getd s' x = getd s x).
+Proof. exact HeapFrameAll.replace_nonchild_first. Qed.
+Print Assumptions C09_replace_nonchild_first.
+
+(** equivalence is symmetric in every state of every history inside the claim (it is a clause of Inv) *)
+Theorem C09_equivalence_symmetric_history : forall seq u ops s', no_readds seq (init u) ops ->
+  run true seq (init u) ops = Some s' -> forall a b, In b (eqs_of s' a) -> In a (eqs_of s' b).
+Proof. exact HeapFrameAll.equivalence_symmetric_history. Qed.
+Print Assumptions C09_equivalence_symmetric_history.
 
 (** the code before the fix commits violated the property: four families, witnesses by computation *)
 Theorem C09_unfixed_lookalike_removal_refuted :
